@@ -79,8 +79,14 @@ fn hostile_value(how: &str, present: i64) -> i32 {
 
 fn pth_image(rng: &mut StdRng, n: usize, hostile: &Value) -> Vec<u8> {
     let mut b = b"LFSPTH".to_vec();
-    b.push(0);
-    b.push(0);
+    // version and revision bytes: 0 / 0 in the files LFS ships; other values are carried through like any other byte
+    if rng.gen_range(0..5) == 0 {
+        b.push(rng.gen_range(0..3));
+        b.push(rng.gen_range(0..3));
+    } else {
+        b.push(0);
+        b.push(0);
+    }
     let how = hostile["how"].as_str().unwrap_or("");
     let cnt = if hostile["pos"] == "nodes" { hostile_value(how, n as i64) } else { n as i32 };
     b.extend_from_slice(&cnt.to_le_bytes());
